@@ -15,6 +15,7 @@
 EXTENDS CachingBucket, TLC, Json, IOUtils, SequencesExt
 CONSTANTS Sizes, SubSizes, MaxSubs, MaxCacheables, MaxOps,
           Inductive,                  \* TRUE: start from every sound cache; FALSE: from the empty cache
+          Procs,                      \* identities of GetRange calls that may overlap in time ({}: reads are atomic)
           HistSizes, HistLen          \* leg B: history cases are generated for these sizes / lengths
 
 VARIABLES n, S, M, mc,     \* configuration
@@ -24,8 +25,9 @@ VARIABLES n, S, M, mc,     \* configuration
           contc,           \* cached object contents: name -> bytes
           iterc,           \* cached listing of the root dir: {} or {set of names}
           nops,            \* reads done
+          pend,            \* per Procs element: a GetRange that has looked into the cache but not finished
           res, want        \* answer of the last read through the cache / of the bucket (hidden by VIEW)
-vars == <<n, S, M, mc, subc, attrc, exc, contc, iterc, nops, res, want>>
+vars == <<n, S, M, mc, subc, attrc, exc, contc, iterc, nops, pend, res, want>>
 cachevars == <<subc, attrc, exc, contc, iterc>>
 
 Names == {"a", "b"}
@@ -33,6 +35,7 @@ ObjA == [i \in 1..n |-> i]
 Bkt == [a |-> ObjA, b |-> Absent]
 
 Empty == [x \in {} |-> 0]
+NoReq == [off |-> -1]
 Without(f, k) == [x \in DOMAIN f \ {k} |-> f[x]]
 With(f, k, v) == [x \in DOMAIN f \cup {k} |-> IF x = k THEN v ELSE f[x]]
 
@@ -43,6 +46,7 @@ InitEmpty ==
         /\ n \in Sizes /\ S \in SubSizes /\ M \in MaxSubs /\ mc \in MaxCacheables
         /\ subc = Empty /\ attrc = Empty /\ exc = Empty /\ contc = Empty /\ iterc = {}
         /\ nops = 0 /\ res = NotFound /\ want = NotFound
+        /\ pend = [p \in Procs |-> NoReq]
 
 (* Inductive mode: start from EVERY sound cache content (CacheSound) and do one step.  Since    *)
 (* every step from a sound cache is transparent and leaves the cache sound, transparency holds   *)
@@ -51,6 +55,7 @@ InitEmpty ==
 MinOf(T) == CHOOSE x \in T : \A y \in T : x <= y
 InitSound ==
         /\ n \in Sizes /\ nops = 0 /\ res = NotFound /\ want = NotFound
+        /\ pend = [p \in Procs |-> NoReq]
         /\ attrc \in {Empty, With(Empty, "a", n)}
         /\ \/ /\ S \in SubSizes /\ M \in MaxSubs /\ mc = MinOf(MaxCacheables)
               /\ subc \in { [o \in D |-> RangeOf(ObjA, o, S)] : D \in SUBSET { o \in 0..(n - 1) : o % S = 0 } }
@@ -63,7 +68,7 @@ InitSound ==
 
 Init == IF Inductive THEN InitSound ELSE InitEmpty
 
-Done == nops' = nops + 1 /\ UNCHANGED <<n, S, M, mc>>
+Done == nops' = nops + 1 /\ UNCHANGED <<n, S, M, mc, pend>>
 
 (* GetRange on the existing object: attributes through the cache (cachedAttributes), then the  *)
 (* subrange algorithm.  Newly fetched subranges and the attributes are stored.                  *)
@@ -77,6 +82,28 @@ GetRangeA(off, len) ==
           /\ attrc' = With(attrc, "a", n)
     /\ want' = BktGetRange(Bkt, "a", off, len)
     /\ UNCHANGED <<exc, contc, iterc>> /\ Done
+
+(* The same GetRange as two steps, so that calls can overlap: Begin = attributes + cache Fetch     *)
+(* (the call remembers what it saw), End = bucket sub-requests, Store of the new subranges and the *)
+(* answer.  Between the two, other calls begin or end and entries are evicted.                      *)
+BeginRange(p, off, len) ==
+    /\ nops < MaxOps /\ pend[p] = NoReq
+    /\ LET req == { o \in DOMAIN subc : AlignDown(off, S) <= o /\ o < off + len } IN
+       pend' = [pend EXCEPT ![p] = [off |-> off, len |-> len,
+                                     size |-> IF "a" \in DOMAIN attrc THEN attrc["a"] ELSE n,
+                                     hits |-> [o \in req |-> subc[o]]]]
+    /\ attrc' = With(attrc, "a", n)
+    /\ nops' = nops + 1
+    /\ UNCHANGED <<n, S, M, mc, subc, exc, contc, iterc, res, want>>
+EndRange(p) ==
+    /\ pend[p] # NoReq
+    /\ LET q == pend[p]
+           r == AlgoGetRange(ObjA, q.size, S, M, q.off, q.len, q.hits)
+       IN /\ res' = r.res
+          /\ want' = BktGetRange(Bkt, "a", q.off, q.len)
+          /\ subc' = [o \in DOMAIN subc \cup DOMAIN r.subs |-> IF o \in DOMAIN r.subs THEN r.subs[o] ELSE subc[o]]
+    /\ pend' = [pend EXCEPT ![p] = NoReq]
+    /\ UNCHANGED <<n, S, M, mc, attrc, exc, contc, iterc, nops>>
 
 (* GetRange on a missing object: the attributes lookup fails, nothing is cached.  *)
 GetRangeB(off, len) ==
@@ -132,11 +159,12 @@ Evict ==
        \/ \E x \in DOMAIN exc : exc' = Without(exc, x) /\ UNCHANGED <<subc, attrc, contc, iterc>>
        \/ \E x \in DOMAIN contc : contc' = Without(contc, x) /\ UNCHANGED <<subc, attrc, exc, iterc>>
        \/ iterc # {} /\ iterc' = {} /\ UNCHANGED <<subc, attrc, exc, contc>>
-    /\ UNCHANGED <<n, S, M, mc, nops, res, want>>
+    /\ UNCHANGED <<n, S, M, mc, nops, pend, res, want>>
 
 (* Requests: every offset up to one past the end, every length up to two past the end (longer   *)
 (* requests are clipped to the object exactly like these).                                       *)
 Next == \/ \E off \in 0..(n + 1) : \E len \in 1..((n + 2) - off) : GetRangeA(off, len)
+        \/ \E p \in Procs : (\E off \in 0..(n + 1) : \E len \in 1..((n + 2) - off) : BeginRange(p, off, len)) \/ EndRange(p)
         \/ GetRangeB(0, 1)
         \/ \E x \in Names, k \in -1..n : Get(x, k)
         \/ \E x \in Names : Exists(x) \/ Attrs(x)
@@ -158,7 +186,7 @@ CacheSound ==
     /\ \A x \in DOMAIN contc : contc[x] = Bkt[x] /\ Len(contc[x]) <= mc
     /\ iterc \subseteq {{"a"}}
 
-View == <<n, S, M, mc, subc, attrc, exc, contc, iterc, nops>>
+View == <<n, S, M, mc, subc, attrc, exc, contc, iterc, nops, pend>>
 
 (* ---- leg B: cases for the real CachingBucket ---- *)
 CasesFile == IF "VERIF_CASES" \in DOMAIN IOEnv THEN IOEnv.VERIF_CASES ELSE "cases.ndjson"
